@@ -9,6 +9,7 @@ R15c  no directory set => no file access; strict flag forwarded unchanged;
 R15d  who-may-open: file reads occur only in read_latex_file (and the CLIs).
 """
 import ast
+from .. import symex
 from ..core import (AnalysisError, short, unparse, iter_own, call_name, call_recv,
                     is_self_attr, atomic_facts, always_exits, parents, enclosing_stmt,
                     enclosing_func)
@@ -26,7 +27,10 @@ def _is_sep(e):
 
 
 def _sep_terminated(e, sepnames):
-    """Expression is known to end with a path separator."""
+    """Expression is known to end with a path separator (sepnames: names / expression texts
+    known to end with one from the path facts)."""
+    if unparse(e) in sepnames:
+        return True
     if isinstance(e, ast.Name):
         return e.id in sepnames
     if isinstance(e, ast.BinOp) and isinstance(e.op, ast.Add):
@@ -149,35 +153,47 @@ def contains_expr(e, a, b, sepnames, helpers, depth=0):
 
 
 def helper_contains(h, pa, pb, helpers, depth):
-    """Every truthy return of helper `h` must imply containment of pa in pb."""
-    rets = [n for n in iter_own(h) if isinstance(n, ast.Return)]
-    if not rets:
+    """Every truthy return of helper `h` must imply containment of pa in pb.  Decided on the
+    substituted return value of each structural path (pxv.symex), with the branch decisions of
+    the path as facts (`b.endswith(os.sep)` taken true makes b separator-terminated)."""
+    try:
+        cases = symex.return_cases(h)
+    except symex.TooManyPaths as e:
+        return 'unknown', str(e)
+    if not cases:
         return 'unknown', 'helper has no return'
     reasons = []
-    for r in rets:
-        v = r.value
-        if v is None or (isinstance(v, ast.Constant) and not v.value):
+    for cs in cases:
+        v = cs.sub
+        if isinstance(v, ast.Constant) and not v.value:
             continue
-        sepn = _sep_names_before(h, r)
+        sepfacts = set()
+        pos_atoms = []
+        for t, pol in cs.conds:
+            for a, ap in symex._atoms(t, pol):
+                if ap:
+                    pos_atoms.append(a)
+                    if isinstance(a, ast.Call) and call_name(a) == 'endswith' and a.args and \
+                            _is_sep(a.args[0]) and call_recv(a) is not None:
+                        sepfacts.add(unparse(call_recv(a)))
         if isinstance(v, ast.Constant) and v.value is True:
-            facts = atomic_facts(r)
             ok = False
-            for t, pol in facts:
-                if pol:
-                    c = contains_expr(t, pa, pb, sepn, helpers, depth)
-                    if c[0] == 'ok':
-                        ok = True
-                        reasons.append('return True under ' + c[1])
-                    elif c[0] == 'prefix':
-                        return c
+            for t in pos_atoms:
+                c = contains_expr(t, pa, pb, sepfacts, helpers, depth)
+                if c[0] == 'ok':
+                    ok = True
+                    reasons.append('return True under ' + c[1])
+                elif c[0] == 'prefix':
+                    return c
             if not ok:
                 return 'unknown', 'helper returns True on a path whose guard is not a ' \
                                   'recognised containment test'
             continue
-        c = contains_expr(v, pa, pb, sepn, helpers, depth)
+        c = contains_expr(v, pa, pb, sepfacts, helpers, depth)
         if c[0] != 'ok':
             return c
-        reasons.append('return ' + c[1])
+        if ('return ' + c[1]) not in reasons:
+            reasons.append('return ' + c[1])
     if not reasons:
         return 'unknown', 'helper never returns a truthy value'
     return 'ok', h.name + ': ' + '; '.join(reasons)
